@@ -58,7 +58,7 @@ def floors(tier):
     return {"distinct_nontrivial": 400, "cls:quant:an": 400, "cls:quant:the": 300, "cls:quant:infer": 300,
             "cls:head": 500, "cls:tag:fpred": 300, "cls:tag:cpred": 300, "cls:tag:hastype": 100, "predicate_calls": 5000,
             "cls:ambient_changes_between_results": 300, "cls:query_as_domain": 100, "cls:predicate_that_runs_a_query_of_its_own": 300,
-            "cls:operand_is_an_independent_subquery": 300, "cls:result_iterator_closed_under_ambient_mode": 200}
+            "cls:operand_is_an_independent_subquery": 300, "cls:result_iterator_closed_under_ambient_mode": 200, "cls:about_300_results_per_evaluation": 100}
 
 
 def _has_pred(c):
@@ -86,10 +86,18 @@ def cases(spec, ctx):
             else:
                 cond = [rng.choice(["and", "or"]), ["fpred", "f_inner_gen", [["v", rng.randrange(nv), []], ["lit", rng.randint(0, 2)]]], cond]
         quant = rng.choice(["an", "an", "the", "the", "infer", "infer"])
+        big = i % 100 == 3
+        if big:
+            # SIZE: 270-330 objects nearly all of which qualify, so that an evaluation hands out some three hundred results (each
+            # computed by a Predicate subclass, half of them constructing a rule head) while the ambient mode is on
+            nv, kinds = 1, ["P"]
+            world = D.random_world(rng, np_=(270, 330), nq=(1, 2), hi=5, rich=False)
+            cond = ["and", ["cpred", "CGt", [["v", 0, []], ["lit", 0]]], ["cmp", rng.choice([">=", "!="]), ["v", 0, [["a", "b"]]], ["lit", rng.choice([0, 9])]]]
+            quant = rng.choice(["an", "infer"])
         head = quant == "infer" or rng.random() < 0.3
         k_expr = rng.choice([["lit", 5], ["v", 0, [["a", "a"]]], ["v", nv - 1, [["a", "b"]]]])
         case = {"world": world, "kinds": kinds, "cond": cond, "quant": quant, "head": head, "k_expr": k_expr,
-                "caching": rng.random() < 0.75}
+                "caching": rng.random() < 0.75, "big": big}
         # the ambient mode may also change WHILE the result iterator is being consumed: one mode per next() call
         if rng.random() < 0.25:
             # an operand that is a nested the(...) query of its own (no variable shared with the rest of the query) whose
@@ -262,6 +270,8 @@ def check_case(case, ctx):
     ctx.cls("cls:quant:" + case["quant"])
     if case.get("subquery_operands"):
         ctx.cls("cls:operand_is_an_independent_subquery")
+    if case.get("big"):
+        ctx.cls("cls:about_300_results_per_evaluation")
     if case["head"]:
         ctx.cls("cls:head")
     if case.get("schedule"):
@@ -289,6 +299,8 @@ def check_case(case, ctx):
             ctx.fail("EXC", f"close_under_ambient: {type(e).__name__}: {e}\n{traceback.format_exc()[-600:]}")
     outs, calls = {}, {}
     modes = MODES + MODES_WITH_QUERY
+    if case.get("big"):
+        modes = MODES + ["query_of"]        # (three hundred results per evaluation: the plain modes and the query's own block)
     for mode in modes:
         outs[mode], calls[mode] = run(case, world, mode)
         ctx.count("predicate_calls", calls[mode])
